@@ -32,6 +32,9 @@ type c19Case struct {
 	Sec     int64  `json:"sec"`     // write: the time
 	Nsec    int64  `json:"nsec"`
 	Off     int    `json:"off"`
+	// Zero (write, required field): the zero time.Time, an ordinary value of date /
+	// timestamp-millis / timestamp-micros where no union offers a null branch.
+	Zero bool `json:"zero,omitempty"`
 	// Local, if set, is the process's local time zone while the case runs (a zone with
 	// daylight saving): what a stored integer means does not depend on where the reader sits.
 	Local string `json:"local,omitempty"`
@@ -152,6 +155,9 @@ func runC19Zone(c c19Case) (bool, error) {
 	if c.Off != 0 {
 		tm = tm.In(time.FixedZone("", c.Off))
 	}
+	if c.Zero {
+		tm = time.Time{}
+	}
 	wb := avro.NewWriteBuf(nil)
 	if c.Ptr {
 		v := c19P{T: &tm}
@@ -250,6 +256,9 @@ func TestC19(t *testing.T) {
 				try(c19Case{Logical: l, Ptr: ptr, Dir: "read", Stored: v}, t)
 			}
 		}
+	}
+	for _, l := range []string{"date", "timestamp-millis", "timestamp-micros"} {
+		try(c19Case{Logical: l, Dir: "write", Zero: true, Sec: -62135596800}, t)
 	}
 	// a year of days in each season's neighbourhood, read by a process whose local zone has daylight saving
 	for _, zone := range c18Zones {
